@@ -5,7 +5,9 @@ from __future__ import annotations
 
 import re
 
-from vf.gen.messages import BLOBEN, GRAMMAR, PARTS, STATES, SWITCH
+from vf.gen.messages import BLOBEN, GRAMMAR, PARTS, PERMS, RULES, STATES, SWITCH
+
+FIELD_VOCABULARIES = {"state": STATES, "perm": PERMS, "rule": RULES}
 
 def is_number_syntax(s) -> bool:
     """INDI number syntax: one definition for the whole harness (vf.ref.number)."""
@@ -31,6 +33,11 @@ def nonconformities(view):
             out.append(("required-attribute-missing", f"{tag}.{a}"))
     for a, vocab in spec["vocab"].items():
         if a in attrs and attrs[a] not in vocab:
+            out.append((f"{a}-vocabulary", attrs[a]))
+    # a constrained field is constrained wherever the message carries it: a kind whose grammar does not list `perm` (a light
+    # definition), `rule` or `state` must not come back holding a word outside that field's vocabulary either
+    for a, vocab in FIELD_VOCABULARIES.items():
+        if a in attrs and a not in spec["vocab"] and attrs[a] not in vocab:
             out.append((f"{a}-vocabulary", attrs[a]))
     if spec["text"] == "bloben" and text not in BLOBEN:
         out.append(("blobenable-vocabulary", text))
